@@ -261,8 +261,11 @@ func run1(c Case) ev.Verdict {
 		}
 	}
 
+	// "within a bounded time": the statement names no figure. The pinned implementation waits at
+	// most ReadDelay^2/1000 for a graceful exit; 10 s on top of that (virtual time, so it costs
+	// nothing) leaves room for any other reasonable grace policy while a hang still exceeds it.
 	grace := rd * (rd / 1000)
-	bound := grace + time.Second
+	bound := grace + 10*time.Second
 
 	if c.RealTime {
 		bound = grace + 20*time.Second // wall clock under load: only a real hang exceeds this
